@@ -90,6 +90,7 @@ func (s *Set[T]) SortMerge(lt cmp.LessThan[T]) {
 }
 
 func (s *Set[T]) forceSetupOrdered() {
+	verifGuard("dt.Set.forceSetupOrdered", &s.mtx)
 	fun.Invariant.Ok(s.list == nil)
 	s.list = &List[T]{}
 	for item := range s.hash {
@@ -182,6 +183,7 @@ func (s *Set[T]) Populate(iter *fun.Iterator[T]) {
 func (s *Set[T]) Extend(extra *Set[T]) { s.Populate(extra.Iterator()) }
 
 func (s *Set[T]) unsafeIterator() *fun.Iterator[T] {
+	verifGuard("dt.Set.unsafeIterator", &s.mtx)
 	if s.list != nil {
 		return s.list.Iterator()
 	}
